@@ -512,17 +512,19 @@ async def lock_contention(part, layout, r):
             sent = []
             for c in r.sample(conns, r.randint(2, nconn)):
                 mark, m_ = msg()
-                c.feed(b'a APPEND INBOX {%d+}\r\n' % len(m_) + m_ + b'\r\n')
+                # the tag is the mark: an answer that comes late (a loaded machine) is still matched with its own command
+                c.feed(mark + b' APPEND INBOX {%d+}\r\n' % len(m_) + m_ + b'\r\n')
                 sent.append((c, mark))
                 log.append(f'append {mark.decode()} while the lock is held ({hold}s)')
             await asyncio.sleep(hold + 0.02)
             part.stat('lock-contention:round')
             for c, mark in sent:
                 raw = await c.settle(wall=8.0)
-                mt = re.search(rb'APPENDUID (\d+) (\d+)', raw)
-                if mt:
-                    given[mark] = int(mt.group(2))
-                elif b'a NO' in raw or b'a BAD' in raw:
+                for mk, u in re.findall(rb'(mark-\d+) OK \[APPENDUID \d+ (\d+)\]', raw):
+                    given[mk] = int(u)
+                if mark in given:
+                    pass
+                elif mark + b' NO' in raw or mark + b' BAD' in raw:
                     part.stat('lock-contention:refused')
                 else:
                     part.stat('lock-contention:no-answer')
